@@ -956,3 +956,31 @@ Definition request_metadata_names (attrs explicit creds : list str) (streaming_p
    then Handle (the endpoint) unless decoding failed *)
 Definition stream_trace (has_decoder decode_ok : bool) : list stage :=
   (if has_decoder then [SDecode] else []) ++ (if negb has_decoder || decode_ok then [SEndpoint] else []).
+
+(* ------------------------------------------- attribute names that stay identifiers *)
+(* the first character of the attribute name that survives goa's CamelCase (letters and
+   digits survive) is a letter: the negation of the recorded finding
+   field-name-not-identifier (1abc -> 1_abc). A name without any such character becomes
+   the field "val". *)
+Definition letter_led (n : str) : bool :=
+  match n with
+  | [] => false
+  | _ => match filter valid_id (strip_colon n) with
+         | c :: _ => is_letter c
+         | [] => true
+         end
+  end.
+
+(* well-formed descriptions stated on the attribute NAMES as designed (letter-led)
+   instead of on the field names goa derives from them *)
+Definition wf_alt_src (a : str * tag * ty) : bool :=
+  letter_led (fst (fst a)) && match simple_name (snd a) with Some _ => true | None => false end.
+
+Definition wf_member_src (m : member) : bool :=
+  match m with
+  | MField n tg req t => letter_led n && wf_member (MField [97] tg req t)
+  | MOneof u alts => letter_led u && forallb wf_alt_src alts && match alts with [] => false | _ => true end
+  end.
+
+Definition wf_msg_src (m : msg) : bool :=
+  match m with Msg n ms => ident_ok n && forallb wf_member_src ms end.
